@@ -78,6 +78,15 @@ Section Facts.
     - cbn [bind]. rewrite !interp_vis. destruct (H n ev w); try discriminate. apply IH.
     - rewrite interp_yield. discriminate.
   Qed.
+  Lemma interp_bind2_done n A B C (p : prog A) (h : A -> prog B) (g : B -> prog C) w a w1 :
+    I n p w = Done (inl a) w1 -> I n (bind (bind p h) g) w = I n (bind (h a) g) w1.
+  Proof.
+    revert w. induction p as [x|e|X ev k IH|v k IH]; intro w.
+    - rewrite interp_ret. intro E; inversion E; subst. reflexivity.
+    - rewrite interp_raise. discriminate.
+    - cbn [bind]. rewrite !interp_vis. destruct (H n ev w); try discriminate. apply IH.
+    - rewrite interp_yield. discriminate.
+  Qed.
   Lemma interp_bind_raise n A B (p : prog A) (f : A -> prog B) w e w1 :
     I n p w = Done (inr e) w1 -> I n (bind p f) w = Done (inr e) w1.
   Proof.
